@@ -433,8 +433,23 @@ func c06Trace(r *Report, ws []*segWritten, rs []*segRead) {
 		for i := 0; i < h+3; i++ {
 			parts = append(parts, "fixed1")
 		}
-		wantW := strings.Join(parts, ":LE ") + ":LE raw fixed4:LE"
-		wantR := strings.Join(parts, ":BE ") + ":BE raw fixed4:LE" // single bytes: order irrelevant
+		// single bytes have no byte order: normalise "fixed1:<anything>" to "fixed1"
+		norm := func(set map[string]bool) map[string]bool {
+			out := map[string]bool{}
+			for s := range set {
+				fs := strings.Fields(s)
+				for i, f := range fs {
+					if strings.HasPrefix(f, "fixed1:") || f == "fixed1" {
+						fs[i] = "fixed1"
+					}
+				}
+				out[strings.Join(fs, " ")] = true
+			}
+			return out
+		}
+		wset, rset = norm(wset), norm(rset)
+		wantW := strings.Join(parts, " ") + " raw fixed4:LE"
+		wantR := wantW
 		key := fmt.Sprintf("compressor=%v", comp)
 		if len(wset) == 1 && wset[wantW] && len(rset) == 1 && rset[wantR] {
 			r.OKf("trace", key, token.NoPos, "%d header bytes, 3 CRC-24 bytes, payload run, little-endian CRC-32 on both sides", h)
